@@ -52,9 +52,9 @@ theorem C16_stop_returns_clean (c : Cfg) (hc : c.proto = .fixed) (n : Nat) (s : 
   have I := inv_reachable hc h
   have m := I.ctl.mainOK
   simp [MainOK, hidle, hup] at m
-  obtain ⟨ht, hq, hsrv, hqueue⟩ := m
+  obtain ⟨ht, hq, hsrv, hsrv2, hqueue⟩ := m
   have hquiet := I.ctl.nothr_cb ht
-  have hidleAll := I.ctl.nosrv_idle hsrv
+  have hidleAll := allIdle_of_idleOn (I.ctl.nosrv_idle hsrv) (I.ctl.nosrv2_idle hsrv2)
   have hacc : s.accepting = false := by
     cases ha : s.accepting
     · rfl
@@ -88,18 +88,46 @@ theorem C16_no_exception_from_start_stop (c : Cfg) (hc : c.proto = .fixed) (n : 
     (h : Reachable c n s) : s.errs = [] ∧ s.cb ≠ .done true :=
   ⟨(inv_reachable hc h).ctl.noErr, (inv_reachable hc h).ctl.noExc⟩
 
-/-- **Restartable.**  From every state in which stop() has returned, the four steps of start()
-    are enabled one after the other without interference being necessary, start() returns
-    without exception, and the listener accepts indications again. -/
-theorem C16_restartable (c : Cfg) (hc : c.proto = .fixed) (n : Nat) (s : Sys)
+/-- the steps of start() after the call: Queue(), CallbackThread.start(), one server per configured port -/
+def startSteps (c : Cfg) : List Label :=
+  [.main, .main] ++ (if c.http then [.main] else []) ++ (if c.https then [.main] else [])
+
+/-- **Restartable, any port configuration.**  From every state in which stop() has returned, the steps
+    of start() are enabled one after the other without interference being necessary, start() returns
+    without exception, and every configured port (HTTP, HTTPS, both, none) accepts indications again. -/
+theorem C16_restartable_any_ports (c : Cfg) (hc : c.proto = .fixed) (n : Nat) (s : Sys)
     (h : Reachable c n s) (hidle : s.main = .idle) (hup : s.up = false) :
-    ∃ s', runTrace c [.start, .main, .main, .main] s = some s' ∧ s'.main = .idle ∧ s'.up = true ∧
-      s'.accepting = true ∧ s'.qref = true ∧ s'.cb = .run ∧ s'.errs = [] := by
+    ∃ s', runTrace c (.start :: startSteps c) s = some s' ∧ s'.main = .idle ∧ s'.up = true ∧
+      s'.accepting = c.http ∧ s'.accepting2 = c.https ∧ s'.srv = c.http ∧ s'.srv2 = c.https ∧
+      s'.qref = true ∧ s'.cb = .run ∧ s'.errs = [] := by
   have I := inv_reachable hc h
   have m := I.ctl.mainOK
   simp [MainOK, hidle, hup] at m
-  obtain ⟨ht, hq, _, _⟩ := m
-  simp [runTrace, step, stepStart, stepMain, hidle, hup, ht, hq, I.ctl.noErr]
+  obtain ⟨ht, hq, hs1, hs2, _⟩ := m
+  have ha1 : s.accepting = false := by
+    cases ha : s.accepting
+    · rfl
+    · have := I.ctl.acc_srv ha; simp_all
+  have ha2 : s.accepting2 = false := by
+    cases ha : s.accepting2
+    · rfl
+    · have := I.ctl.acc_srv2 ha; simp_all
+  cases h1 : c.http <;> cases h2 : c.https <;>
+    simp [startSteps, runTrace, step, stepStart, stepMain, startServers, hidle, hup, ht, hq, hs1, hs2, ha1, ha2,
+      h1, h2, I.ctl.noErr]
+
+/-- **Restartable.**  From every state in which stop() has returned, the four steps of start()
+    are enabled one after the other without interference being necessary, start() returns
+    without exception, and the listener accepts indications again.  (Stated for the configuration the
+    first version of the model had, HTTP port only; `C16_restartable_any_ports` is the general form.) -/
+theorem C16_restartable (c : Cfg) (hc : c.proto = .fixed) (hh : c.http = true) (hs : c.https = false) (n : Nat) (s : Sys)
+    (h : Reachable c n s) (hidle : s.main = .idle) (hup : s.up = false) :
+    ∃ s', runTrace c [.start, .main, .main, .main] s = some s' ∧ s'.main = .idle ∧ s'.up = true ∧
+      s'.accepting = true ∧ s'.qref = true ∧ s'.cb = .run ∧ s'.errs = [] := by
+  obtain ⟨s', h1, h2, h3, h4, _, _, _, h5, h6, h7⟩ := C16_restartable_any_ports c hc n s h hidle hup
+  refine ⟨s', ?_, h2, h3, ?_, h5, h6, h7⟩
+  · simpa [startSteps, hh, hs] using h1
+  · simpa [hh] using h4
 
 /-- **At most once, always.**  In every reachable state, every (callback, indication) pair occurs at
     most once in the callback log: no callback is ever invoked twice for the same indication. -/
@@ -246,6 +274,134 @@ example : ∃ s, Reachable { proto := .fixed, maxQ := 1, ncb := 1 } 2 s ∧ s.re
   refine ⟨_, reachable_runTrace Reachable.init tr
     (s' := (runTrace { proto := .fixed, maxQ := 1, ncb := 1 } tr (init 2)).get (by decide)) (by simp), ?_⟩
   decide
+
+/-! ### two servers (HTTP and HTTPS port), any port configuration -/
+
+def bothCfg : Cfg := { proto := .fixed, maxQ := 0, ncb := 1, http := true, https := true }
+
+/-- both ports: start, one indication over HTTP (sender 0) and one over HTTPS (sender 1), stop() with the HTTPS
+    handler still running (server_close of the HTTPS server waits for it), everything delivered -/
+def bothTrace : List Label :=
+  [.start, .main, .main, .main, .main, .cb false, .snd 0, .sndTls 1, .snd 0, .snd 0, .snd 1,
+   .stop, .main, .main, .main, .snd 1, .main, .cb false, .cb false, .cb false, .cb false, .cb false, .cb false,
+   .cb false, .cb false, .main, .main, .cb false, .cb false, .main]
+
+/-- **stop() leaves no server behind, for every port configuration.**  Whenever stop() has returned: neither
+    the HTTP nor the HTTPS server object exists, neither port accepts, no handler thread of either server is
+    alive (each `server_close()` joined its own), and the callback thread has ended. -/
+theorem C16_stop_leaves_no_server (c : Cfg) (hc : c.proto = .fixed) (n : Nat) (s : Sys)
+    (h : Reachable c n s) (hidle : s.main = .idle) (hup : s.up = false) :
+    s.srv = false ∧ s.srv2 = false ∧ s.accepting = false ∧ s.accepting2 = false ∧
+    allIdle s.senders = true ∧ (s.cb = .off ∨ s.cb = .done false) := by
+  have I := inv_reachable hc h
+  have m := I.ctl.mainOK
+  simp [MainOK, hidle, hup] at m
+  obtain ⟨ht, _, hs1, hs2, _⟩ := m
+  refine ⟨hs1, hs2, ?_, ?_, allIdle_of_idleOn (I.ctl.nosrv_idle hs1) (I.ctl.nosrv2_idle hs2), I.ctl.nothr_cb ht⟩
+  · cases ha : s.accepting
+    · rfl
+    · have := I.ctl.acc_srv ha; simp_all
+  · cases ha : s.accepting2
+    · rfl
+    · have := I.ctl.acc_srv2 ha; simp_all
+
+example : ∃ s, Reachable bothCfg 2 s ∧ s.main = .idle ∧ s.up = false ∧ s.enq = [(0, 0), (1, 0)] ∧
+    s.log = [(0, (0, 0)), (0, (1, 0))] ∧ s.acked = [(0, 0), (1, 0)] := by
+  refine ⟨_, reachable_runTrace Reachable.init bothTrace
+    (s' := (runTrace bothCfg bothTrace (init 2)).get (by decide)) (by simp), ?_⟩
+  decide
+
+/-- **After start() has returned every configured port serves.**  Between a returned start() and the next
+    stop() call: queue and callback thread exist, and each configured port has its server object, accepting. -/
+theorem C16_started_serves_configured_ports (c : Cfg) (hc : c.proto = .fixed) (n : Nat) (s : Sys)
+    (h : Reachable c n s) (hidle : s.main = .idle) (hup : s.up = true) :
+    s.qref = true ∧ s.thrRef = true ∧ (c.http = true → s.srv = true ∧ s.accepting = true) ∧
+    (c.https = true → s.srv2 = true ∧ s.accepting2 = true) := by
+  have m := (inv_reachable hc h).ctl.mainOK
+  simp [MainOK, hidle, hup] at m
+  exact m
+
+example : ∃ s, Reachable bothCfg 2 s ∧ s.main = .idle ∧ s.up = true ∧ s.accepting = true ∧ s.accepting2 = true := by
+  refine ⟨_, reachable_runTrace Reachable.init (bothTrace.take 5)
+    (s' := (runTrace bothCfg (bothTrace.take 5) (init 2)).get (by decide)) (by simp), ?_⟩
+  decide
+
+/-- **A handler thread lives only while its own server exists.**  A request that came in over the HTTP
+    (HTTPS) port is in flight only while the HTTP (HTTPS) server object exists: each `server_close()` joins
+    the handler threads of its own server before stop() goes on, so no handler can touch the queue reference
+    after stop() has started to take the delivery down (the reason for `C16_acked_implies_enqueued`). -/
+theorem C16_handler_only_while_its_server_exists (c : Cfg) (hc : c.proto = .fixed) (n : Nat) (s : Sys)
+    (h : Reachable c n s) (j : Nat) (sd : Sender) (hj : s.senders[j]? = some sd) (hbusy : sd.pc ≠ .idle) :
+    (sd.tls = false → s.srv = true ∧ s.qref = true) ∧ (sd.tls = true → s.srv2 = true ∧ s.qref = true) := by
+  have I := inv_reachable hc h
+  constructor
+  · intro ht
+    cases hs : s.srv
+    · rcases idleOn_get (I.ctl.nosrv_idle hs) hj with h1 | h1
+      · exact absurd h1 hbusy
+      · exact absurd ht h1
+    · exact ⟨rfl, (I.ctl.srv_q (Or.inl hs)).1⟩
+  · intro ht
+    cases hs : s.srv2
+    · rcases idleOn_get (I.ctl.nosrv2_idle hs) hj with h1 | h1
+      · exact absurd h1 hbusy
+      · exact absurd ht h1
+    · exact ⟨rfl, (I.ctl.srv_q (Or.inr hs)).1⟩
+
+/-- **The `_queue_full` flag and its warnings** (both protocols).  The flag can only be set for a bounded
+    queue; the logged warnings ("now full" = true, "no longer full" = false) alternate, start with "now full",
+    and the last one tells the current value of the flag (no warning yet: flag false). -/
+theorem C16_queue_full_flag (c : Cfg) (n : Nat) (s : Sys) (h : Reachable c n s) :
+    (s.qfull = true → c.maxQ ≠ 0) ∧ alternating s.fullLog = true ∧ s.fullLog.head? ≠ some false ∧
+    s.fullLog.getLast? = (if s.fullLog = [] then none else some s.qfull) ∧ (s.fullLog = [] → s.qfull = false) := by
+  have F := full_reachable h
+  exact ⟨F.bounded, F.alt, F.headOk, F.lastOk, F.emptyOk⟩
+
+example : ∃ s, Reachable { proto := .fixed, maxQ := 1, ncb := 1 } 2 s ∧ s.fullLog = [true, false] ∧ s.qfull = false := by
+  let tr : List Label := [.start, .main, .main, .main, .snd 0, .snd 1, .snd 0, .snd 1, .snd 1,
+    .cb false, .cb false, .snd 1, .snd 1]
+  refine ⟨_, reachable_runTrace Reachable.init tr
+    (s' := (runTrace { proto := .fixed, maxQ := 1, ncb := 1 } tr (init 2)).get (by decide)) (by simp), ?_⟩
+  decide
+
+/-! ### add_callback: which callbacks are registered, and in which order -/
+
+/-- **Registered callbacks.**  After any sequence `regs` of `add_callback` calls (callbacks identified up to
+    `==`, e.g. bound methods of one object are equal): `self._callbacks` has no duplicates, contains exactly the
+    callbacks ever passed, in the order of their first registration (a sub-sequence of `regs`), and registering
+    known callbacks again, in any order, changes nothing. -/
+theorem C16_registered_callbacks (regs : List Nat) :
+    (registered regs).Nodup ∧ (∀ f, f ∈ registered regs ↔ f ∈ regs) ∧ (registered regs).Sublist regs ∧
+    (∀ more : List Nat, (∀ f ∈ more, f ∈ regs) → registered (regs ++ more) = registered regs) := by
+  refine ⟨foldl_add_nodup regs [] (by simp), ?_, ?_, ?_⟩
+  · intro f; simpa [registered] using foldl_add_mem regs [] f
+  · obtain ⟨t, h1, h2⟩ := foldl_add_sublist regs []
+    simpa [registered, h1] using h2
+  · intro more hm
+    unfold registered
+    rw [List.foldl_append]
+    exact foldl_add_known more _ (fun f hf => (foldl_add_mem regs [] f).mpr (Or.inr (hm f hf)))
+
+example : registered [2, 0, 2, 1, 0] = [2, 0, 1] := by decide
+
+/-- **Every registered callback saw every accepted indication once, in queue order.**  With the callbacks
+    registered by `regs` (so `ncb` = number of distinct ones): when stop() has returned, every callback ever
+    passed to `add_callback`, however often, occupies exactly one position `k` of `self._callbacks`, and the
+    sequence of indications handed to that position is exactly `enq`. -/
+theorem C16_each_registered_callback_saw_all (c : Cfg) (hc : c.proto = .fixed) (regs : List Nat)
+    (hn : c.ncb = (registered regs).length) (n : Nat) (s : Sys)
+    (h : Reachable c n s) (hidle : s.main = .idle) (hup : s.up = false) (f : Nat) (hf : f ∈ regs) :
+    ∃ k, (registered regs)[k]? = some f ∧ (∀ k', (registered regs)[k']? = some f → k' = k) ∧
+      seenBy k s.log = s.enq := by
+  obtain ⟨hnd, hmem, _, _⟩ := C16_registered_callbacks regs
+  obtain ⟨k, hk⟩ := List.mem_iff_getElem?.mp ((hmem f).mpr hf)
+  have hlt : k < (registered regs).length := by
+    rcases Nat.lt_or_ge k (registered regs).length with h1 | h1
+    · exact h1
+    · simp [List.getElem?_eq_none h1] at hk
+  refine ⟨k, hk, ?_, C16_every_callback_saw_all c hc n s h hidle hup k (by omega)⟩
+  intro k' hk'
+  exact ((List.getElem?_inj hlt hnd).mp (hk.trans hk'.symm)).symm
 
 /-- **The source has the structure the fixed protocol mirrors.**  Facts re-read from the text of
     pywbem/_listener.py on every run (tools/extractors/listener_threads.py): stop() stops the listener
